@@ -6,7 +6,7 @@ set -u
 ID=$1; WT=$2; TIER=${3:-quick}; shift; shift; shift || true
 EXTRA="$@"
 S=$(mktemp -d /tmp/seed-XXXXXX)
-git -C $WT diff -- mako > $S/patch.diff
+if [ -s $WT/seed/patch.diff ]; then cp $WT/seed/patch.diff $S/patch.diff; else git -C $WT diff -- mako > $S/patch.diff; fi
 echo "== patch: $(grep -c '^[+-][^+-]' $S/patch.diff) changed lines in $(grep -c '^diff' $S/patch.diff) file(s)"
 cp -r /repo/. $S/repo 2>/dev/null; rm -rf $S/repo/.git
 ( cd $S/repo && patch -p1 -s < $S/patch.diff ) || { echo "PATCH DOES NOT APPLY to /repo HEAD"; rm -rf $S; exit 3; }
